@@ -1,4 +1,7 @@
 import MosdnsVerif.Model.C01
+import MosdnsVerif.Model.C01Doq
+import MosdnsVerif.Refine.C16
+import MosdnsVerif.Lemmas.Stream
 import MosdnsVerif.Base.Facts
 import MosdnsVerif.Gen.Facts
 
@@ -317,6 +320,104 @@ example : pathsSafe (some [[(0, 0), (2, 0), (0, 1), (1, 1), (5, 0)], [(0, 0), (2
 /-- a double release and a read after release are unsafe -/
 example : pathsSafe (some [[(0, 0), (3, 0), (4, 0), (6, 0)]]) = false ∧ pathsSafe (some [[(0, 0), (3, 0), (2, 0), (6, 0)]]) = false := by decide
 
+/-! ## DoH: the request a call hands to the transport carries that call's own query -/
+
+theorem doh_init_inv : ({} : Doh).Inv := by
+  constructor <;> simp
+
+theorem doh_inv_step (s s' : Doh) (l : DLabel) (hi : s.Inv) (hs : s.step true l = some s') : s'.Inv := by
+  obtain ⟨h1, h2⟩ := hi
+  cases l with
+  | build c =>
+    simp only [Doh.step, if_true, Option.some.injEq] at hs; subst hs
+    refine ⟨?_, h2⟩
+    intro c' o ho
+    simp only at ho
+    by_cases hc : c' = c
+    · subst hc; rw [upd_same] at ho; simpa using ho.symm
+    · rw [upd_other _ _ _ _ hc] at ho; exact h1 c' o ho
+  | serve c =>
+    simp only [Doh.step, if_true] at hs
+    split at hs
+    · cases ho : s.own c with
+      | none => rw [ho] at hs; cases hs
+      | some o =>
+        rw [ho] at hs; simp only [Option.some.injEq] at hs; subst hs
+        refine ⟨h1, ?_⟩
+        intro p hp
+        simp only [List.mem_cons] at hp
+        rcases hp with rfl | hp
+        · exact (h1 c o ho).symm
+        · exact h2 p hp
+    · cases hs
+
+theorem doh_inv_run (ls : List DLabel) : ∀ (s s' : Doh), s.Inv → s.run true ls = some s' → s'.Inv := by
+  induction ls with
+  | nil => intro s s' hi hr; simp only [Doh.run, Option.some.injEq] at hr; subst hr; exact hi
+  | cons l ls ih =>
+    intro s s' hi hr
+    simp only [Doh.run] at hr
+    cases hs : s.step true l with
+    | none => rw [hs] at hr; cases hr
+    | some s1 => rw [hs] at hr; exact ih s1 s' (doh_inv_step s s1 l hi hs) hr
+
+/-- **DoH: every request is answered for the query of the call it belongs to**, for any number of concurrent
+calls and whenever the transport gets round to serialising each request (any interleaving of `build` and
+`serve` steps) - provided each call writes its query string into a URL of its own. -/
+theorem doh_own_reply (ls : List DLabel) (s : Doh) (hr : ({} : Doh).run true ls = some s) : ∀ p ∈ s.log, p.1 = p.2 :=
+  (doh_inv_run ls _ s doh_init_inv hr).log
+
+/-- ... which is what the code does (regenerated fact): the statement above holds for the DoH upstream as the
+source has it now. -/
+theorem doh_own_reply_gen (ls : List DLabel) (s : Doh)
+    (hr : ({} : Doh).run (Gen.Facts.c01DohRequestPerCall == some true) ls = some s) : ∀ p ∈ s.log, p.1 = p.2 := by
+  have h : (Gen.Facts.c01DohRequestPerCall == some true) = true := by decide
+  rw [h] at hr
+  exact doh_own_reply ls s hr
+
+/-- the seeded defect "the per-call copy of the URL is dropped": two calls build their requests, then the
+transport serialises the first one: it carries the second call's query, and call 0 is handed the answer to it -/
+example : ((({} : Doh).run false [.build 0, .build 1, .serve 0]).map (·.log)) = some [(0, 1)] := by decide
+
+/-! ## DoQ: the reply read from the query's stream is the server's reply, however it is cut into pieces -/
+
+theorem announced_hdr' (n : Nat) (h : n ≤ 65535) : Model.C16.announced (Model.C16.hdr n) = n := by
+  unfold Model.C16.announced Model.C16.hdr
+  simp
+  omega
+
+/-- the framing model reads a whole frame from any chunking of it (the C16 round trip, restated here so that
+this file depends on the framing model and its refinement lemma only) -/
+theorem readRaw_whole (m rest : Bytes) (cs : Go.Stream) (h13 : 13 ≤ m.length) (hmax : m.length ≤ 65535)
+    (hcs : cs.flatten = Model.C16.hdr m.length ++ m ++ rest) :
+    ∃ cs', Model.C16.readRaw cs = .ok (m, cs') ∧ cs'.flatten = rest := by
+  unfold Model.C16.readRaw Go.readFull
+  obtain ⟨c1, h1, h1f⟩ := Lemmas.Stream.readFullAux_spec cs 2 [] (Model.C16.hdr m.length) (m ++ rest) (by simpa using hcs) (by simp [Model.C16.hdr])
+  simp only [List.nil_append] at h1
+  rw [h1]
+  simp only [announced_hdr' m.length hmax]
+  have : ¬ m.length ≤ 12 := by omega
+  simp only [this, if_false]
+  obtain ⟨c2, h2, h2f⟩ := Lemmas.Stream.readFullAux_spec c1 m.length [] m rest h1f rfl
+  simp only [List.nil_append] at h2
+  exact ⟨c2, h2, h2f⟩
+
+/-- **DoQ: whatever pieces the reply arrives in, the caller gets exactly the bytes the server sent on its
+query's stream, with its own id in front** (the reader is the regenerated `ReadRawMsgFromTCP`; every chunking
+of the stream, including one-byte reads and a split header). -/
+theorem doq_own_reply (reply rest : Bytes) (cs : Go.Stream) (hi lo : UInt8) (h13 : 13 ≤ reply.length)
+    (hmax : reply.length ≤ 65535) (hcs : cs.flatten = Model.C16.hdr reply.length ++ reply ++ rest) :
+    doqReturn hi lo cs = .ok (hi :: lo :: reply.drop 2) := by
+  obtain ⟨cs', h, _⟩ := readRaw_whole reply rest cs h13 hmax hcs
+  simp only [doqReturn, Refine.C16.readRawMsgFromTCP_eq, h]
+
+/-- a reader that takes the body from a single `Read` (the seeded defect) returns, for a reply that arrives in
+two pieces, the first piece completed with what the pooled buffer held before: the tail of an earlier reply -/
+example :
+    (readOnce [0, 0, 2, 2, 2, 2, 2, 2, 2, 2, 2, 2, 2, 2]
+      [[0, 14], [0, 0, 1, 1, 1, 1, 1, 1, 1], [1, 1, 1, 1, 1]]).toOption = some [0, 0, 1, 1, 1, 1, 1, 1, 1, 2, 2, 2, 2, 2] ∧
+    (doqReturn 0 0 [[0, 14], [0, 0, 1, 1, 1, 1, 1, 1, 1], [1, 1, 1, 1, 1]]).toOption = some [0, 0, 1, 1, 1, 1, 1, 1, 1, 1, 1, 1, 1, 1] := by decide
+
 /-! ## tie to the source: regenerated facts -/
 
 theorem facts_guard :
@@ -324,6 +425,7 @@ theorem facts_guard :
     Gen.Facts.c01ReaderDispatchesByWireId = some true ∧ Gen.Facts.c01PopRemovesEntry = some true ∧
     Gen.Facts.c01DeleteOnlyOwnEntry = some true ∧ Gen.Facts.c01WireIdWrittenIntoCopy = some true ∧
     Gen.Facts.c01CallerIdRestored = some true ∧ Gen.Facts.c01DohIdZeroedAndRestored = some true ∧
+    Gen.Facts.c01DohRequestPerCall = some true ∧
     Gen.Facts.c01DoqIdZeroedAndRestored = some true ∧ Gen.Facts.c01ReuseLeaveKeepsSlot = some true ∧
     Gen.Facts.c01ReuseOneWaiter = some true ∧ Gen.Facts.c01ReuseReaderDispatch = some true ∧
     Gen.Facts.c01ReuseSetIdleCallSites = some 2 ∧ Gen.Facts.c01ReuseTakeRemovesFromIdle = some true ∧
